@@ -48,7 +48,7 @@ def main():
         "version": 1,
         "setup_cmd": "bin/setup",
         "hooks": {
-            "guard": "none in /repo: instrumentation (yields, lock hooks, bbolt.Open wrapper, deterministic map iteration, importable CLI twin) is applied by /verif/instrument to a scratch copy of the current working tree",
+            "guard": "none in /repo: instrumentation (yields, lock hooks, bbolt.Open wrapper, deterministic map iteration, importable CLI twin with the service constructor lifted from the program's own registration call; lock hooks also in a copy of the pinned bbolt module) is applied by /verif/instrument to a scratch copy of the current working tree",
             "enable": "bin/check copies /repo's working tree to a scratch directory, rewrites the copy, overlays the harness and builds it with go1.26.8 -race; the real `updog` binary is built from the pristine copy",
             "baseline_off_cmd": "cd /repo && GOFLAGS=-mod=mod go test -vet=off -count=1 ./...",
             "source_commits": [],
